@@ -176,7 +176,7 @@ def check_rejected(res):
     """C12 oracle on the recorded run of a faulted input -> violations."""
     v = []
     if res["timed_out"]:
-        return [{"cls": "hang-on-bad-input", "site": "-", "detail": "no exit within %ss" % runner.RUN_TIMEOUT}]
+        return [{"cls": "hang-on-bad-input", "site": "-", "detail": "no exit within %ss" % res.get("budget_s", runner.RUN_TIMEOUT)}]
     writes = core.output_writes(res)
     out_rel = core.rel_world(res, res["layout"]["output_dir"])
     log_rel = core.rel_world(res, res["layout"]["log_dir"])
